@@ -76,9 +76,12 @@ def extract(root='/repo', std='c++14', scratch=None, extra_tus=()):
             tus = list(ex.map(one, srcs))
         prog = Program(tus, root)
         from . import normalise
+        prog.unbraced = normalise.unbrace_scalars(prog)
         prog.inlined = normalise.inline_local_helpers(prog)
         prog.range_loops = normalise.canonical_range_for(prog)
+        prog.iterator_loops = normalise.canonical_iterator_for(prog)
         prog.aliases = normalise.resolve_reference_aliases(prog)
+        prog.continues = normalise.canonical_continue(prog)
         prog.returns_canon = normalise.canonical_returns(prog)
         pn = os.path.join(os.path.dirname(os.path.abspath(__file__)), 'param_names.json')
         prog.renamed_params = normalise.canonical_param_names(prog, json.load(open(pn))) if os.path.exists(pn) else 0
